@@ -51,7 +51,15 @@ class Kit:
     def ends_ok(self, ends):
         c = [self.not_nan(e) for e in ends]
         c += [self.le(ends[i], ends[i + 1]) for i in range(len(ends) - 1)]
+        c += self.bounded(ends)
         return c
+
+    def bounded(self, vs):
+        """real kit: the order-only symbols for -inf / +inf bracket every value"""
+        if not self.real:
+            return []
+        lo, hi = z3.Real("NEG_INF!"), z3.Real("POS_INF!")
+        return [z3.And(lo <= v, v <= hi) for v in vs] + [lo < hi]
 
     def spec_piece_chain(self, ends, pieces, x):
         t = pieces[-1]
@@ -158,7 +166,7 @@ def direct_evaluate(e, n, real=False):
     x = kit.var("x")
     mp, nums = merged_result(dom, paths)
     spec = kit.spec_piece_chain(ends, [kit.EV(p, x) for p in pieces], x)
-    assum = kit.ends_ok(ends) + [kit.not_nan(x)]
+    assum = kit.ends_ok(ends) + [kit.not_nan(x)] + kit.bounded([x])
     return assum, nums[0].t, spec, mp, {"ends": ends, "pieces": pieces, "x": x, "paths": len(paths), "kit": kit}
 
 
@@ -196,7 +204,7 @@ def evaluate_v_run(e, n, q, non_decreasing=False, real=False):
     dom = kit.dom
     ends = [kit.var("e%d" % i) for i in range(n)]
     xs = [kit.var("x%d" % i) for i in range(q)]
-    assum = kit.ends_ok(ends) + [kit.not_nan(v) for v in xs]
+    assum = kit.ends_ok(ends) + [kit.not_nan(v) for v in xs] + kit.bounded(xs)
     if non_decreasing:
         assum += [kit.le(xs[i], xs[i + 1]) for i in range(q - 1)]
     it = Interp(e.program, dom, max_paths=200000)
@@ -226,7 +234,7 @@ def evaluator_run(e, n, q, allow_nan=False, real=False):
     dom = kit.dom
     ends = [kit.var("e%d" % i) for i in range(n)]
     xs = [kit.var("x%d" % i) for i in range(q)]
-    assum = kit.ends_ok(ends)
+    assum = kit.ends_ok(ends) + kit.bounded(xs)
     if not allow_nan:
         assum += [kit.not_nan(v) for v in xs]
     it = Interp(e.program, dom, max_paths=400000)
